@@ -74,9 +74,11 @@ Definition md_body_ok (pe_ok : text -> bool) (n : nat) (body : list bline) : boo
   forallb (fun b => match b with BExp l => md_exp_ok pe_ok n l | BCode ds => code_ok ds end) body
   && Nat.leb (count_codes body) 1
   && match body with BExp l :: _ => negb (starts_with P_GT l) | _ => true end.
+Definition lang_of (lang : text) : text := match split_at_brace lang with (a, Some _) => trim_end a | (a, None) => a end.
 Definition lang_ok (lang : text) : bool :=
   match lang with [] => false | c :: _ => negb (c =? BT) end
-  && negb (list_eqb (match split_at_brace lang with (a, Some _) => trim_end a | (a, None) => a end) SCRUT) && no_nl lang.
+  && negb (list_eqb (lang_of lang) SCRUT) && no_nl lang
+  && match lang_of lang with [] => false | _ => true end.       (* ```{x} : a block without language is rejected by the parser *)
 Definition cfg_text_ok (cfg_ok : text -> bool) (c : text) : bool :=
   match c with [] => false | _ => true end && cfg_ok c && no_nl c.
 
